@@ -17,6 +17,7 @@ import (
 
 // Ctx is handed to every property check.
 type Ctx struct {
+	iterDepth int // recursion guard of iterMustPass into helpers
 	P    *core.Program
 	R    *core.Report
 	Tier string
